@@ -3,6 +3,7 @@ package watchers
 import (
 	"context"
 	"fmt"
+	"math"
 	"sync"
 	"syscall"
 	"time"
@@ -33,6 +34,10 @@ func checkThreshold(total, free uint64, minSpaceRequired float64) error {
 			threshold = 50 * GB
 		}
 	}
+
+	// A fractional threshold must be rounded up before the integer comparison:
+	// truncating it accepts free == floor(threshold), which is below the threshold.
+	threshold = math.Ceil(threshold)
 
 	// Compare free space with threshold
 	if free < uint64(threshold) {
